@@ -156,6 +156,15 @@ func runC11(r *Run) {
 	c11Siblings(r, pairs)
 
 	r.NilArgsRule("C11.R5", "x509", "asn1", "x509/pkix")
+
+	// "exactly the field values the standard library parser reports": the ASN.1 layer the
+	// X.509 parser decodes through agrees with the toolchain's encoding/asn1 site for site,
+	// condition for condition (rule set of C10.R3) — e.g. the UTCTime century pivot
+	r.Shared("C11.R6", func() {
+		if li := c10ComputeLax(r); li.field != nil {
+			c10R3(r, li)
+		}
+	})
 }
 
 // ---- IsFatal decision table ---------------------------------------------------------
